@@ -66,7 +66,7 @@ func TestDrive(t *testing.T) {
 	}
 	defer tw.Close()
 	for _, s := range scheds {
-		w := NewWorld(t, s.Uniq)
+		w := NewWorld(t, s.Uniq, s.Chan)
 		bases := map[string]string{}
 		for ph, b := range s.Bases {
 			bases[ph] = b
